@@ -22,7 +22,7 @@ for t in $stable; do grep -qE "Test +#[0-9]+: $t \.+ +Passed" "$MDIR/tests_with.
 if [ -f "$MDIR/build_demo.sh" ]; then ( cd "$MDIR" && bash ./build_demo.sh ) >"$MDIR/demo_with.log" 2>&1; rc=$?; [ $rc -ne 0 ] && demo_fails=yes || demo_fails="no(rc=0)"; fi
 # the check, against the mutated tree
 VCOPY=/tmp/verif_mut_$PROP
-rm -rf "$VCOPY"; mkdir -p "$VCOPY"; rsync -a --exclude build --exclude .git --exclude replays --exclude evidence /verif/ "$VCOPY/"; mkdir -p "$VCOPY/replays" "$VCOPY/evidence"
+rm -rf "$VCOPY"; mkdir -p "$VCOPY"; git -C /verif archive HEAD | tar -x -C "$VCOPY"; rm -rf "$VCOPY/replays" "$VCOPY/evidence"; mkdir -p "$VCOPY/replays" "$VCOPY/evidence"  # the committed state: edits in progress do not leak in
 ( cd "$VCOPY" && SOUNDSWALLOWER_REPO="$WT" timeout 1500 ./check "$PROP" quick ) > "$MDIR/check_with.log" 2>&1; crc=$?
 check_result="exit=$crc"
 grep -m3 -A2 "^VIOLATION" "$MDIR/check_with.log" >> "$LOG"
